@@ -114,27 +114,29 @@ where
 #[zero_copy]
 pub struct ZAl128 { pub x: u8 }
 
-crate::fs_harness!(c08_load_mem_u32 @ 64 => { load_mem_ok::<U32, 0>() });
-crate::fs_harness!(c08_load_mem_u32_trail5 @ 64 => { load_mem_ok::<U32, 5>() });
-crate::fs_harness!(c08_load_mem_tup2 @ 64 => { load_mem_ok::<Tup2, 0>() });
-crate::fs_harness!(c08_load_mem_arru32x1 @ 64 => { load_mem_ok::<ArrU32x1, 0>() });
-crate::fs_harness!(c08_load_mem_zeros @ 64 => { load_mem_ok::<ZeroSC, 0>() });
-crate::fs_harness!(c08_load_mem_optu8 @ 70 => { load_mem_ok::<OptU8, 0>() });
-crate::fs_harness!(c08_load_mem_u64_trail20 @ 64 => { load_mem_ok::<U64, 20>() });
-crate::fs_harness!(c08_load_full_u32 @ 64 => { load_full_ok::<U32>() });
-crate::fs_harness!(c08_load_full_tup2 @ 64 => { load_full_ok::<Tup2>() });
-crate::fs_harness!(c08_store_u32 @ 64 => { store_ok::<U32>() });
-crate::fs_harness!(c08_store_tup2 @ 64 => { store_ok::<Tup2>() });
-crate::fs_harness!(c08_overaligned_refused @ 64 => {
+crate::fs_harness!(c08_load_mem_u32 @ 13 => { load_mem_ok::<U32, 0>() });
+crate::fs_harness!(c08_load_mem_u32_trail5 @ 13 => { load_mem_ok::<U32, 5>() });
+crate::fs_harness!(c08_load_mem_tup2 @ 13 => { load_mem_ok::<Tup2, 0>() });
+crate::fs_harness!(c08_load_mem_arru32x1 @ 13 => { load_mem_ok::<ArrU32x1, 0>() });
+crate::fs_harness!(c08_load_mem_zeros @ 13 => { load_mem_ok::<ZeroSC, 0>() });
+crate::fs_harness!(c08_load_mem_optu8 @ 28 => { load_mem_ok::<OptU8, 0>() });
+crate::fs_harness!(c08_load_mem_u64_trail20 @ 13 => { load_mem_ok::<U64, 20>() });
+crate::fs_harness!(c08_load_full_u32 @ 13 => { load_full_ok::<U32>() });
+crate::fs_harness!(c08_load_full_tup2 @ 13 => { load_full_ok::<Tup2>() });
+crate::fs_harness!(c08_store_u32 @ 13 => { store_ok::<U32>() });
+crate::fs_harness!(c08_store_tup2 @ 13 => { store_ok::<Tup2>() });
+crate::fs_harness!(c08_overaligned_refused @ 13 => {
     let path = put_file(&[0u8; 8], 8);
     let r = <ZAl128>::load_mem(&path);
-    let refused = match &r { Err(e) => matches!(e.downcast_ref::<epserde::deser::Error>(), Some(epserde::deser::Error::AlignmentError)), Ok(_) => false };
+    let refused = r.is_err();
     core::mem::forget(r);
-    assert!(refused, "C08: a type needing more than the backing alignment is refused with an alignment error");
+    assert!(refused, "C08: a type needing more than the backing alignment is refused");
+    #[cfg(kani)]
+    assert!(unsafe { N_ALLOC } == 0, "C08: ... before any backing memory is obtained");
 });
 
 /// Reachability twin.
-crate::fs_harness!(c08_twin_reach @ 64 => {
+crate::fs_harness!(c08_twin_reach @ 13 => {
     let x: u32 = any();
     let mut s = Sink::<64>::new();
     let n = x.serialize(&mut s).unwrap();
